@@ -21,6 +21,19 @@ ASSUMPTIONS = [
     "SHA-256 is collision-free on the explored inputs",
 ]
 
+def _with_env(value, fn):
+    """checksum verification requested through the environment, in one of the spellings the library documents / tolerates"""
+    old = os.environ.get("DATASHARD_VERIFY_CHECKSUMS")
+    os.environ["DATASHARD_VERIFY_CHECKSUMS"] = value
+    try:
+        return fn()
+    finally:
+        if old is None:
+            os.environ.pop("DATASHARD_VERIFY_CHECKSUMS", None)
+        else:
+            os.environ["DATASHARD_VERIFY_CHECKSUMS"] = old
+
+
 APIS = {
     "scan": lambda t: sorted(reader.rowkey(r) for r in t.scan()),
     "scan_parallel": lambda t: sorted(reader.rowkey(r) for r in t.scan(parallel=2)),
@@ -28,12 +41,18 @@ APIS = {
     "scan_filter_cols": lambda t: sorted(reader.rowkey(r) for r in t.scan(columns=["id"], filter={"id": (">=", 0)})),
     "scan_batches": lambda t: sorted(reader.rowkey(r) for b in t.scan_batches(batch_size=1) for r in b),
     "iter_records": lambda t: sorted(reader.rowkey(r) for r in t.iter_records()),
+    "scan_cols": lambda t: sorted(reader.rowkey(r) for r in t.scan(columns=["id"])),
+    "scan_cols_parallel": lambda t: sorted(reader.rowkey(r) for r in t.scan(columns=["id", "name"], parallel=2)),
+    "scan_env_on": lambda t: _with_env("on", lambda: sorted(reader.rowkey(r) for r in t.scan())),
+    "scan_env_padded": lambda t: _with_env(" true\r\n", lambda: sorted(reader.rowkey(r) for r in t.scan())),
+    "scan_env_yes_upper": lambda t: _with_env("YES", lambda: sorted(reader.rowkey(r) for r in t.iter_records())),
     "row_count": lambda t: t.row_count(),
 }
 # which file kinds a read API touches
 TOUCHES = {a: {"meta", "mlist", "manifest", "data"} for a in APIS}
 TOUCHES["row_count"] = {"meta", "mlist", "manifest"}
-CHECKSUM_ON = {"scan", "scan_parallel", "scan_filter_cols", "scan_batches", "iter_records"}
+CHECKSUM_ON = {"scan", "scan_parallel", "scan_filter_cols", "scan_batches", "iter_records", "scan_cols", "scan_cols_parallel", "scan_env_on",
+               "scan_env_padded", "scan_env_yes_upper"}
 
 
 def _build(path):
